@@ -21,7 +21,13 @@ def check(ctx):
     F = ctx.facts
     # (C12.d: every attempt starts from the start state alone — the scratch buffers of the automaton are cleared on entry)
     kernel.analyze(ctx, {"C01.b", "C01.c", "C01.i", "C05.a", "C05.b", "C05.c", "C12.d"})
-    cursor.analyze(ctx, {"C01.d", "C01.e", "C07.b"})
+    # (C10.a: the public iterator forwards next / peek_n / set_offset / with_offset / advance_to to the implementation as they
+    # are and keeps no state of its own — the token rules are stated for the implementation)
+    cursor.analyze(ctx, {"C01.d", "C01.e", "C07.b", "C10.a"})
+    # (the records handed to the user carry what the scan computed: Match / MatchExt / Span / Position constructors store their
+    # arguments)
+    from . import pC06 as _p6
+    _p6.data_api_rules(ctx, "C01.e")
     nfa_rules.analyze(ctx, {"C01.g"})
     casts.analyze(ctx, {"C01.h"})
 
